@@ -15,6 +15,11 @@ from multiprocessing import Pool
 from . import common, scenes, tablecheck
 
 OBSERVABLES = {
+    'C01': {'ne': ('messages',), 'spec': ('C01.',)},
+    'C02': {'ne': ('messages', 'high-cloud-flag'), 'spec': ('C02.',)},
+    'C03': {'ne': ('.n_hits', '.perc', '.okta', '.code'), 'spec': ('C03.',)},
+    'C04': {'ne': ('.height_base', '.height_mean', '.height_std', '.height_min', '.height_max', '.thickness', '.fluffiness'),
+            'spec': ('C04.',)},
     'C05': {'ne': ('slice_id', 'group_id', 'layer_id', 'cropped-data', 'find_', 'slices-table-length',
                    'groups-table-length', 'layers-table-length', '.cluster_id', '.ncomp', '.isolated', '.n_hits'),
             'spec': ('C05.',)},
@@ -166,15 +171,35 @@ def gen_scene(seed, k, family):
     return rows, prms, meta
 
 
+def index_variant(rng, rows):
+    """Index labels for the caller's frame: mostly the plain RangeIndex, sometimes labels with repeats (as after
+    pd.concat of per-ceilometer frames) - the accepted inputs of every property include those."""
+    r = rng.random()
+    n = len(rows)
+    if r < 0.7:
+        return None, 'plain'
+    if r < 0.82:
+        seen = {}
+        out = []
+        for c, *_ in rows:
+            out.append(seen.get(c, 0)); seen[c] = seen.get(c, 0) + 1
+        return out, 'per_ceilometer_restart'
+    if r < 0.92:
+        return [rng.randrange(max(1, n // 3)) for _ in range(n)], 'random_repeats'
+    return [0] * n, 'all_equal'
+
+
 def _work(args):
     seed, k, family = args
     rows, prms, meta = gen_scene(seed, k, family)
+    index, ikind = index_variant(random.Random(f'{seed}:idx:{family}:{k}'), rows)
+    meta['index'] = ikind
     try:
-        obs = scenes.run_scene(rows, prms)
+        obs = scenes.run_scene(rows, prms, index=index)
     except Exception as e:
         return {'meta': meta, 'harness_error': f'{type(e).__name__}: {e}'}
     out = {'meta': meta, 'exc': obs['exc'], 'stage': obs['stage'], 'exc_msg': obs.get('exc_msg'),
-           'stats': scenes.scene_stats(obs), 'req': None, 'missing': obs['trace'].missing,
+           'stats': dict(scenes.scene_stats(obs), **{'index_' + ikind: 1}), 'req': None, 'missing': obs['trace'].missing,
            'digest': hashlib.sha1(repr((rows, sorted(prms.items(), key=str))).encode()).hexdigest()[:16],
            'nrows': len(rows), 'prms': prms}
     if not obs['exc']:
